@@ -927,7 +927,11 @@ fn fault_free_inputs(w: &World, ctx: &Ctx) -> Vec<FaultFreeInput> {
     for i in 0..n_derived {
         let e = rng.pick(&w.families);
         let pairs = 1 + rng.usize_below(3);
-        let r = c06::inject_path_clash(&e.reg, &mut rng, pairs);
+        let r = if rng.chance(1, 4) {
+            c06::inject_numbered_clash(&e.reg, &mut rng)
+        } else {
+            c06::inject_path_clash(&e.reg, &mut rng, pairs)
+        };
         let (name, r) = if rng.chance(1, 2) {
             match dedup_on_execution_thread(&r) {
                 Some(r2) => (format!("derived:clash#{i}+dedup:{}", e.name), r2),
